@@ -65,3 +65,37 @@ def class_of(f):
     # return type prefix of templates ("void ST::foo<...>") may sit in parts[0]
     parts[0] = parts[0].split(' ')[-1]
     return '::'.join(parts[:-1])
+
+
+WIDE_RE = re.compile(r'\b(?:w|wo|ld|pun|ret|uninit|sw|inttoptr|gep|intr|ev|end|cpy|fill|n|len|trunc|shl|lshr|mul|xor|ov|sel|v)#\d+')
+
+
+def abstract_atoms(x):
+    """Names of symbols that stand for lost precision rather than for an input: widened loop values (constrained only by the
+    verified invariants), results of havoc'd calls, reads of havoc'd memory, opaque operations."""
+    return set(WIDE_RE.findall(repr(x)))
+
+
+def robust(lins):
+    """A mismatch between these terms does not depend on where in the abstraction of a loop the state lies."""
+    return not abstract_atoms(lins)
+
+
+def strip_mod(l, bits):
+    """Replace mod(x, b) / smod(x, b) atoms with b >= bits by x: valid modulo 2^bits."""
+    from ..terms import Lin
+    out = Lin.const(l.c)
+    for a, k in l.t:
+        if isinstance(a, tuple) and a[0] in ('mod', 'smod') and a[2] >= bits and isinstance(a[1], Lin):
+            out = out + strip_mod(a[1], bits).scale(k)
+        else:
+            out = out + Lin.atom(a, k)
+    return out
+
+
+def congruent(st, a, b, bits):
+    """a == b modulo 2^bits (unsigned wrap-around arithmetic of the library is legitimate)."""
+    d = strip_mod(a - b, bits)
+    if not d.t:
+        return d.c % (1 << bits) == 0
+    return st.is_eq0(d) is True
